@@ -194,6 +194,20 @@ func recoverState(fs *sp.FS, dir string, battery bool, binName string) (*Recover
 	return recoverDir(root, dir, battery, binName)
 }
 
+// restartWatchdog bounds one restart. It is not a verdict by itself: callers treat a firing as
+// inconclusive, except C06 (the property forbids hangs), which re-runs the case alone with
+// longWatchdog and calls only a second firing a hang.
+var restartWatchdog = 60 * time.Second
+
+const longWatchdogSuffix = "#long"
+
+func restartTimeout(binName string) time.Duration {
+	if strings.HasSuffix(binName, longWatchdogSuffix) {
+		return 10 * time.Minute
+	}
+	return restartWatchdog
+}
+
 func recoverDir(root, dir string, battery bool, binName string) (*Recovered, error) {
 	outp := filepath.Join(dir, "rec.json")
 	os.Remove(outp)
@@ -201,7 +215,7 @@ func recoverDir(root, dir string, battery bool, binName string) (*Recovered, err
 	if battery {
 		args = append(args, "battery")
 	}
-	cmd := exec.Command("strace", append([]string{"-f", "--seccomp-bpf", "-e", "trace=sync,syncfs", "-e", "inject=sync,syncfs:retval=0", "-o", "/dev/null", bin(binName)}, args...)...)
+	cmd := exec.Command("strace", append([]string{"-f", "--seccomp-bpf", "-e", "trace=sync,syncfs", "-e", "inject=sync,syncfs:retval=0", "-o", "/dev/null", bin(strings.TrimSuffix(binName, longWatchdogSuffix))}, args...)...)
 	var buf bytes.Buffer
 	cmd.Stdout, cmd.Stderr = &buf, &buf
 	cmd.SysProcAttr = &syscall.SysProcAttr{Setpgid: true}
@@ -214,7 +228,7 @@ func recoverDir(root, dir string, battery bool, binName string) (*Recovered, err
 	var werr error
 	select {
 	case werr = <-done:
-	case <-time.After(60 * time.Second):
+	case <-time.After(restartTimeout(binName)):
 		syscall.Kill(-cmd.Process.Pid, syscall.SIGQUIT)
 		select {
 		case <-done:
